@@ -38,7 +38,7 @@ class C05(Check):
     RULE += PRELUDE_RULE
     ASSUMPTIONS = ['the order in which ONE source item is delivered to several simultaneously open windows is not constrained (the suite pins slot order, the property does not)']
     ANCHORS = ['rxsci/data/roll.py', 'rxsci/operators/multiplex.py']
-    REQUIRED_TAGS = ['top', 'group', 'roll', 'roll_eq', 'split', 'w<s', 'w=s', 'w>s', 'w%s!=0', 'n=0', 'n<w', 'ring-wrapped', 'w>256', 'numpy-typed-parameters', 'operator-object-used-in-two-pipelines'] + PRELUDE_TAGS
+    REQUIRED_TAGS = ['top', 'group', 'roll', 'roll_eq', 'split', 'w<s', 'w=s', 'w>s', 'w%s!=0', 'n=0', 'n<w', 'ring-wrapped', 'w>256', 'numpy-typed-parameters', 'operator-object-used-in-two-pipelines', 'stride-sweep'] + PRELUDE_TAGS + ['prelude:overlap']
     REQUIRED_OBSERVED = ['child_lifetimes_checked', 'parent_lifetimes_checked', 'partial_windows_flushed']
 
     def generate(self, rng, tier, shard, nshards):
@@ -48,13 +48,20 @@ class C05(Check):
                 for n_ in (0, 1, 40, 260):
                     yield {'w': w_, 's': s_, 'parent': 'top' if n_ % 2 else 'group', 'parent_node': None if n_ % 2 else windows.PARENTS['group'](rng),
                            'items': [rng.randint(0, 40) for _ in range(n_)], 'np_params': kind}
+            # a sweep over the STRIDE values themselves (reciprocals, tables, special-cased sizes): stride s, window 2s or s + 11,
+            # 2.2 s + 3 items
+            top = 200 if tier == 'quick' else 1100
+            for s_ in range(13 + shard, top + 1, max(1, nshards)):
+                w_ = 2 * s_ if s_ % 2 else s_ + 11
+                yield {'w': w_, 's': s_, 'parent': 'top' if s_ % 3 else 'group', 'parent_node': None if s_ % 3 else ['group_by', 'mod:2', None],
+                       'items': list(range(int(2.2 * s_) + 3)) if s_ % 3 else list(range(int(4.4 * s_) + 6)), 'stride_sweep': True}
             for n, c in enumerate(cases):
                 if n % 6 == 4 and not c.get('np_params'):
                     c = dict(c, reuse=True)
                 if n % 5 == 3:
                     c = dict(c, np_params=('int64', 'int32', 'int8', 'uint8', 'int16')[(n // 5) % 5])
                 yield c
-        return with_prelude(npp(self._generate(rng, tier, shard, nshards)), rng)
+        return with_prelude(npp(self._generate(rng, tier, shard, nshards)), rng, overlap=True)
 
     def _generate(self, rng, tier, shard, nshards):
         return interleave(self._box(tier, shard, nshards), self._nested(rng, tier))
@@ -115,6 +122,8 @@ class C05(Check):
             out.tags.append('numpy-typed-parameters')
         if case.get('reuse'):
             out.tags.append('operator-object-used-in-two-pipelines')
+        if case.get('stride_sweep'):
+            out.tags.append('stride-sweep')
         ob = windows.observe(case['parent_node'], x, items, prelude=case.get('prelude'), reuse=bool(case.get('reuse')))
         prelude_tags(case, out)
         if ob.snap.err is not None or not ob.snap.done:
